@@ -22,6 +22,11 @@ RULE = ('Hypothesis-generated episodes on the cluster simulator: 2-4 real instan
         'on exactly one survivor (or is FATAL for the Master) and nothing else of the application was stopped or started; '
         'CONTINUE - no request at all concerns the application. Non-trivial = an application judged with a non-CONTINUE '
         'effective action; distinct = distinct episodes.')
+RULE += (' Part (a): rule-based state machine on the real RunningFailureHandler of a real instance whose Starter / Stopper '
+         'are recorders: sequences of add_default_job / add_job (any strategy) / trigger_jobs with a generated set of busy '
+         'applications / abort / process state changes; after every step the four job sets equal those of a reference '
+         'model of the statement (precedence, promotion when the application is fully stopped and the process sequenced, '
+         'exactly-once trigger, deferral while the application has jobs) and are mutually exclusive by precedence.')
 ASSUMPTIONS = ['applications hit by several disturbances, or re-distributed after the disturbance (a Master loss leads to a '
                'new DISTRIBUTION that restarts failed applications, as documented), are not judged (counted)',
                'no user request is generated: every request comes from the distribution or from the failure handling',
@@ -275,8 +280,16 @@ CHECK = EpisodeCheck(PROPERTY_ID, c06_episode_st(), make_monitors, evaluate, cla
 
 
 def run_shard(ctx):
-    return CHECK.run_shard(ctx)
+    # part (b) end to end on the cluster simulator, then part (a): the handler alone against a reference model
+    result = CHECK.run_shard(ctx)
+    from vlib.core import Triage
+    from checks.c06a import run_part_a
+    run_part_a(ctx, result, Triage(ctx, result))
+    return result
 
 
 def replay(case):
+    if isinstance(case, dict) and 'handler_ops' in case:
+        from checks.c06a import replay_a
+        return replay_a(case)
     return CHECK.replay(case)
